@@ -54,6 +54,40 @@ type c16SkelWalker struct {
 	events  []string
 	notes   []string
 	escapes []string // guarded fields whose address is taken: whoever holds the pointer reads without the lock
+	methods map[string]*ast.FuncDecl // the methods of jwtSigner: calls of them through the receiver are inlined
+	depth   int
+}
+
+// what a call of a method contributes to its caller: its events with its deferred unlocks run at ITS end (not at the
+// caller's) and without its return statements — the normal form of C16/Locks.v
+func c16NormEvents(evs []string) []string {
+	var out, pending []string
+
+	for _, e := range evs {
+		switch e {
+		case "EDeferRUnlock":
+			pending = append([]string{"ERUnlock"}, pending...)
+		case "EDeferUnlock":
+			pending = append([]string{"EUnlock"}, pending...)
+		case "ERet":
+		default:
+			out = append(out, e)
+		}
+	}
+
+	return append(out, pending...)
+}
+
+// s.method(...) of the signer itself?
+func (w *c16SkelWalker) ownCall(call *ast.CallExpr) (*ast.FuncDecl, bool) {
+	sel, ok := call.Fun.(*ast.SelectorExpr)
+	if !ok || !w.isRecv(sel.X) || w.methods == nil || w.depth >= 4 {
+		return nil, false
+	}
+
+	decl, ok := w.methods[sel.Sel.Name]
+
+	return decl, ok && decl.Body != nil && len(decl.Recv.List[0].Names) == 1
 }
 
 func (w *c16SkelWalker) isRecv(e ast.Expr) bool {
@@ -137,6 +171,26 @@ func (w *c16SkelWalker) read(n ast.Node) {
 
 				return false
 			}
+
+			if decl, ok := w.ownCall(t); ok {
+				for _, a := range t.Args {
+					w.read(a)
+				}
+
+				sub := &c16SkelWalker{
+					recv: decl.Recv.List[0].Names[0].Name, mutex: w.mutex, guarded: w.guarded, methods: w.methods, depth: w.depth + 1,
+				}
+				sub.block(decl.Body)
+
+				for _, f := range sub.escapes {
+					sub.events = append(sub.events, "ERead "+f)
+				}
+
+				w.events = append(w.events, c16NormEvents(sub.events)...)
+				w.notes = append(w.notes, sub.notes...)
+
+				return false
+			}
 		case *ast.UnaryExpr:
 			if t.Op == token.AND {
 				if f, ok := w.fieldOf(t.X); ok {
@@ -193,7 +247,7 @@ func (w *c16SkelWalker) stmt(s ast.Stmt) {
 
 		// defer func() { ... s.mut.Unlock() ... }()
 		if lit, ok := t.Call.Fun.(*ast.FuncLit); ok {
-			sub := &c16SkelWalker{recv: w.recv, mutex: w.mutex, guarded: w.guarded}
+			sub := &c16SkelWalker{recv: w.recv, mutex: w.mutex, guarded: w.guarded, methods: w.methods, depth: w.depth}
 			sub.block(lit.Body)
 
 			for _, e := range sub.events {
@@ -340,10 +394,9 @@ func c16ExtractSkeleton(path string) ([]c16Method, []string, error) {
 		}
 	}
 
-	for _, d := range file.Decls {
-		fn, ok := d.(*ast.FuncDecl)
-		if !ok || fn.Recv == nil || len(fn.Recv.List) != 1 || fn.Body == nil {
-			continue
+	isSignerMethod := func(fn *ast.FuncDecl) bool {
+		if fn.Recv == nil || len(fn.Recv.List) != 1 || fn.Body == nil {
+			return false
 		}
 
 		rt := fn.Recv.List[0].Type
@@ -351,11 +404,26 @@ func c16ExtractSkeleton(path string) ([]c16Method, []string, error) {
 			rt = star.X
 		}
 
-		if id, ok := rt.(*ast.Ident); !ok || id.Name != "jwtSigner" || len(fn.Recv.List[0].Names) != 1 {
+		id, ok := rt.(*ast.Ident)
+
+		return ok && id.Name == "jwtSigner" && len(fn.Recv.List[0].Names) == 1
+	}
+
+	signerMethods := map[string]*ast.FuncDecl{}
+
+	for _, d := range file.Decls {
+		if fn, ok := d.(*ast.FuncDecl); ok && isSignerMethod(fn) {
+			signerMethods[fn.Name.Name] = fn
+		}
+	}
+
+	for _, d := range file.Decls {
+		fn, ok := d.(*ast.FuncDecl)
+		if !ok || !isSignerMethod(fn) {
 			continue
 		}
 
-		w := &c16SkelWalker{recv: fn.Recv.List[0].Names[0].Name, mutex: mutex, guarded: guarded}
+		w := &c16SkelWalker{recv: fn.Recv.List[0].Names[0].Name, mutex: mutex, guarded: guarded, methods: signerMethods}
 		w.block(fn.Body)
 
 		// a pointer to a guarded field outlives the critical section
